@@ -681,10 +681,19 @@ Definition s_cfgpanic_verify : bytes := [99;102;103;112;97;110;105;99;58;118;101
 Definition s_cfgpanic_new : bytes := [99;102;103;112;97;110;105;99;58;110;101;119].
 Definition s_badprog : bytes := [98;97;100;112;114;111;103].
 
+(* kind 1 transports long values compactly: every field is a unit string and a repeat count *)
+Fixpoint repeat_fields (units : list bytes) (counts : list Z) : list bytes :=
+  match units, counts with
+  | u :: us, k :: ks => concat (repeat u (Z.to_nat k)) :: repeat_fields us ks
+  | _, _ => []
+  end.
+
 (* kind 0: sargs = program :: schema (names joined by ',') :: the fields of the records (schema
    order, record after record); zargs = number of records :: (RawLength, Unescaped) per record.
    output: "ok:" records joined by ';' then '#' then the custom counters joined by ','.
-   a record: P|D (PASS/DROP) u|n (Unescaped) then ",hex" per field; X = panic (the run stops) *)
+   a record: P|D (PASS/DROP) u|n (Unescaped) then ",hex" per field; X = panic (the run stops)
+   kind 1: the same, but the field values are units, and after the (RawLength, Unescaped) pairs zargs
+   holds one repeat count per field: value = the unit repeated that many times *)
 Definition run_case_C15 (c : case) : bytes :=
   match parse_program (sarg c 0) with
   | None => s_badprog
@@ -696,7 +705,12 @@ Definition run_case_C15 (c : case) : bytes :=
     | LPanicVerify => s_cfgpanic_verify
     | LPanicNew => s_cfgpanic_new
     | LOk ts =>
-      let rs := take_records (length schema) (Z.to_nat (zarg c 0)) (skipn 2 (c_sargs c)) (tl (c_zargs c)) in
+      let n := Z.to_nat (zarg c 0) in
+      let fields :=
+        if c_kind c =? 1
+        then repeat_fields (skipn 2 (c_sargs c)) (skipn (1 + 2 * n) (c_zargs c))
+        else skipn 2 (c_sargs c) in
+      let rs := take_records (length schema) n fields (tl (c_zargs c)) in
       let (out, cs) := run_records tiny_oracles ts (reg_tfs ts []) rs in
       str_ok ++ colon :: join 59 (map out_rec out) ++ 35 :: join comma (map out_counter cs)
     end
